@@ -6,6 +6,7 @@ CONSTANTS
   MaxGen = 3
   MaxOps = 13
   Variant = "orig"
+  StoreFaults = FALSE
 VIEW view
 INVARIANTS NoOldSessionOnNewFabric
 CHECK_DEADLOCK FALSE
